@@ -534,6 +534,22 @@ def check_adapter(case):
         x, y = a(), b()
         if x.mtype != y.mtype or (x.mtype != "0" and not np.array_equal(x.values, y.values)):
             out.append((f"adapter:{module}", f"{what} differs from the interface's", "identical"))
+    # the diffuse (bistatic) part, in the backscatter direction, when the interface has one: same options, same numbers
+    if hasattr(itf, "diffuse_reflection_matrix") and hasattr(sub, "diffuse_reflection_matrix"):
+        m1 = np.array([case["mu"]])
+        dphi = np.array([np.pi])
+        try:
+            with contextlib.redirect_stdout(io.StringIO()):
+                x = sub.diffuse_reflection_matrix(case["f"], e1, m1, m1, dphi, case["npol"])
+                y = itf.diffuse_reflection_matrix(case["f"], e1, e2, m1, m1, dphi, case["npol"])
+        except Exception as e:  # noqa
+            if refusal(e):
+                return out
+            raise
+        xv = np.asarray(getattr(x, "values", x), dtype=float); yv = np.asarray(getattr(y, "values", y), dtype=float)
+        if xv.shape != yv.shape or not np.allclose(xv, yv, rtol=1e-12, atol=0, equal_nan=True):
+            out.append((f"adapter:{module}", f"diffuse_reflection_matrix (backscatter) with options {case['kw']} differs from the interface's built with "
+                        f"the same options", "identical"))
     return out
 
 
@@ -750,10 +766,18 @@ def oracle(ctx, hints, effort):
                         case["kw"].update({"H": 0.0, "Q": 0.0, "Nv": 1.0, "Nh": 1.0})
                     record(case)
             if side == "substrate" and module in ADAPTED and REG[(side, module)][0] != "nullspec":
-                for _ in range(20 if big else 3):
+                opts = {"iem": [dict(autocorrelation_function="gaussian"), dict(series_truncation=2), {}],
+                        "null": ([dict(shadow_correction=False), {}] if module == "geometrical_optics" else [{}])}.get(REG[(side, module)][0], [{}])
+                for j_ in range(20 if big else 3):
                     case = sample_case(rng, side, module)
                     case["kind"] = "adapter"
+                    case["kw"] = dict(case["kw"], **opts[j_ % len(opts)])
+                    case["e1"] = [case["e1"][0], 0.0]
                     record(case)
+            if side == "substrate" and module in ADAPTED and REG[(side, module)][0] == "nullspec":
+                case = sample_case(rng, side, module)
+                case.update(kind="adapter", kw={"mean_square_slope": 0.05, "shadow_correction": False}, e1=[1.6, 0.0], e2=[12.0, 2.0], mu=0.8)
+                record(case)
     return list(findings.values()), evals
 
 
